@@ -2,7 +2,7 @@
 from .core import Facts, Report, site
 from .extract import extract
 from .grammar_check import compare, code_seq, spec_seq, semantic_conds
-from .grammar_props import TABLE, entries, G
+from .grammar_props import TABLE, entries, G, PROJECTION
 from .pir import (Ev, Opaque, find_opaque, walk_steps, may_incomplete, incomplete_sites, can_error, consumes_always, seq_str, sym_str, diff)
 
 
@@ -20,7 +20,7 @@ def grammar_rules(rp, F, prop, rule="GRAMMAR"):
     for path, specfn in entries(prop):
         f = F.fn(path)
         s = site(f, path) if f else path
-        r = compare(F, path, specfn)
+        r = compare(F, path, specfn, project=PROJECTION.get((prop, path)))
         out[path] = r
         rp.functions.update(r.get("called", []))
         short = path.split("::")[-1]
